@@ -566,4 +566,7 @@ def replay_args(v):
         return ("c08_goaway", ["2", str(n)])
     if v["key"].startswith("c08.accept_line.") and v["key"].endswith(".accepted"):
         return ("c08_goaway", ["1", "1"])
+    if v["key"].startswith("c08.shutdown.") or v["key"].startswith("c08.accept_line.") or v["key"].startswith("c08.reject."):
+        # two shutdowns with a decreasing id, then arrivals on every id around the line
+        return ("c08_shutdown_sequence", ["2", "0"])
     return None
